@@ -957,8 +957,13 @@ func (g *Gen) listTarget(level int) *ast.ExprList {
 	for i := 0; i < k; i++ {
 		it := &ast.ExprArrayItem{}
 		switch {
-		case !keyed && !short && i < k-1 && g.chance(1, 5, "hole"):
+		case !keyed && i < k-1 && g.chance(1, 5, "hole"):
+			// a skipped element; the short form has it too since PHP 7.1 ("[, $b] = $x"), also in a
+			// nested pattern, which the grammar first reduces as an array literal
 			g.feat("list-hole")
+			if short {
+				g.feat("list-short-hole")
+			}
 		case level < 1 && g.chance(1, 5, "nestedlist"):
 			if keyed {
 				it.Key, it.DoubleArrowTkn = g.SingleQuoted(), g.tok(token.T_DOUBLE_ARROW, "=>")
